@@ -88,7 +88,7 @@ def run(ctx):
         if ctx.deadline.left() < 30 and done:
             exhaustive = False
             break
-        if rate and len(cases) > 1000 and len(cases) / rate * 2.0 > ctx.deadline.left() - 30:
+        if not ctx.quick and rate and len(cases) > 1000 and len(cases) / rate * 2.0 > ctx.deadline.left() - 30:
             exhaustive = False
             break
         t_b = time.time()
